@@ -76,3 +76,18 @@ func Census(tier string, shard, of int, groupFilter string) string {
 	}
 	return sb.String()
 }
+
+// Plan prints the size of every group of a tier (development aid).
+func Plan(tier string) string {
+	c := &check{}
+	c.Init(tier, 0)
+	var sb strings.Builder
+	var total int64
+	for _, g := range c.groups {
+		r := g.count * int64(len(g.Sweep)+1)
+		total += r
+		fmt.Fprintf(&sb, "%-18s skeletons=%-4d widths=%v level=%d menu=%d docs=%-6d renders=%d\n", g.Name, len(g.Skeletons), g.Widths, g.Level, len(g.Menu), g.count, r)
+	}
+	fmt.Fprintf(&sb, "units=%d renders=%d\n", c.units, total)
+	return sb.String()
+}
